@@ -6,6 +6,8 @@
 import Stevia.Proofs.TreeState
 import Stevia.Proofs.HashSetState
 import Stevia.Proofs.ArraySetState
+import Stevia.Proofs.GenTreeRefine32
+import Stevia.Proofs.GenTreeRefine8
 
 namespace Stevia.C09
 open Stevia
@@ -80,5 +82,41 @@ theorem aset_take_refused {κ : Type} [LinOrd κ] (key : α → κ) (s s' : ASet
   try dsimp only at h
   repeat' (split at h)
   all_goals (first | (cases h; rfl) | cases h)
+
+/-! ### Tie through the translator: a refused operation of the source leaves every register as it was -/
+
+/-- `avl_tree.rs`: when the model refuses an insertion (duplicate key or full tree) resp. a removal (absent key), the
+    translated function run on the layout of the state returns that very layout. -/
+theorem translated_refusals_u32 (kd : α) (vd : β) (s : Tree α β) (h : s.Inv cfgU32) (k : α) (v : β) :
+    (∀ s', s.insert cfgU32 k v = .ok (s', none) →
+      Gen32.insert (Imp.dflt kd vd) (s.image cfgU32 kd vd) k v = some (s.image cfgU32 kd vd, none)) ∧
+    (∀ s', s.remove k = .ok (s', none) →
+      Gen32.remove (Imp.dflt kd vd) (s.image cfgU32 kd vd) k = some (s.image cfgU32 kd vd, none)) := by
+  constructor
+  · intro s' hi
+    have e := tree_insert_refused cfgU32 s s' k v hi
+    rw [e] at hi
+    exact Gen32.insert_refines kd vd s s h k v none hi
+  · intro s' hr
+    have e := tree_remove_refused s s' k hr
+    rw [e] at hr
+    exact Gen32.remove_refines kd vd s s h k none hr
+
+/-- `u8_avl_tree.rs`: when the model refuses an insertion (duplicate key or full tree) resp. a removal (absent key), the
+    translated function run on the layout of the state returns that very layout. -/
+theorem translated_refusals_u8 (kd : α) (vd : β) (s : Tree α β) (h : s.Inv cfgU8) (k : α) (v : β) :
+    (∀ s', s.insert cfgU8 k v = .ok (s', none) →
+      Gen8.insert (Imp.dflt kd vd) (s.image cfgU8 kd vd) k v = some (s.image cfgU8 kd vd, none)) ∧
+    (∀ s', s.remove k = .ok (s', none) →
+      Gen8.remove (Imp.dflt kd vd) (s.image cfgU8 kd vd) k = some (s.image cfgU8 kd vd, none)) := by
+  constructor
+  · intro s' hi
+    have e := tree_insert_refused cfgU8 s s' k v hi
+    rw [e] at hi
+    exact Gen8.insert_refines kd vd s s h k v none hi
+  · intro s' hr
+    have e := tree_remove_refused s s' k hr
+    rw [e] at hr
+    exact Gen8.remove_refines kd vd s s h k none hr
 
 end Stevia.C09
